@@ -19,6 +19,8 @@ structure DSt where
   fsched : List FTok := []
   /-- final state of the previous `run`, per variant -/
   last : List (String × Cfg × S) := []
+  /-- children replaced by new objects between two runs: their outputs hold no data -/
+  fresh : List Nat := []
 
 def DSt.init : DSt :=
   { f := { n := 0, slots := [], down := [], starters := [], onExec := [], fails := [], rank := [] }, sched := [] }
@@ -226,12 +228,17 @@ def step' (s : DSt) (ws : List String) : DSt × List String :=
       (t, c, st, fin)
     ({ s with last := results.map fun (t, c, st, _) => (t, c, st) },
      [s!"wf {s.f.check}"] ++ (results.map fun (t, _, st, fin) => report t s.f st fin).flatten)
+  | "fresh" :: is => match nats is with
+    | some is => ({ s with fresh := is }, [])
+    | none => (s, ["bad-op"])
   | ["rerun"] =>
     -- the composite is run again: new fault set / executor assignment / schedule were sent before
     let d := s.f.toDag
     let fuel := 4 * (s.f.n + 2) * (s.f.n + 2) + 16
     let results := (s.last.map fun (t, c, s1) =>
       [false, true].map fun reset =>
+        let s1 := { s1 with out := fun i => if s.fresh.contains i then .nd else s1.out i,
+                            received := fun i => if s.fresh.contains i then [] else s1.received i }
         let d' := rerunDag d s1 d.fails d.onExec
         let (st, fin) := drive c d' fuel (restart reset d s1 d.fails d.onExec) s.sched 0
         (t ++ (if reset then "z" else "k"), st, fin)).flatten
